@@ -130,6 +130,9 @@ def _rewrite_block(body: list[ast.stmt], st: _Pass) -> list[ast.stmt]:
     k = 0
     while k + 1 < len(body):
         a, f = body[k], body[k + 1]
+        if isinstance(a, ast.AnnAssign) and isinstance(a.target, ast.Name) and isinstance(a.value, ast.List) and not a.value.elts and isinstance(f, (ast.For, ast.AsyncFor)):
+            # `v: list[T] = []` is `v = []` for this purpose
+            a = body[k] = ast.copy_location(ast.Assign(targets=[a.target], value=a.value), a)
         if (isinstance(a, ast.Assign) and len(a.targets) == 1 and isinstance(a.targets[0], ast.Name) and isinstance(a.value, ast.List) and not a.value.elts
                 and isinstance(f, (ast.For, ast.AsyncFor)) and not f.orelse):
             v = a.targets[0].id
@@ -174,6 +177,101 @@ def _rewrite_block(body: list[ast.stmt], st: _Pass) -> list[ast.stmt]:
                 body[k:k + 3] = [ast.copy_location(ast.Return(value=ast.copy_location(ast.BoolOp(op=op, values=[a.value, r.value]), a.value)), a)]
                 st.changed = True
                 continue
+        k += 1
+    # N21: `a, b = X, Y` with plain X, Y (names / attributes / constants) that mention neither a
+    #      nor b  ->  `a = X` ; `b = Y`
+    k = 0
+    while k < len(body):
+        s0 = body[k]
+        if (isinstance(s0, ast.Assign) and len(s0.targets) == 1 and isinstance(s0.targets[0], ast.Tuple) and isinstance(s0.value, ast.Tuple) and len(s0.targets[0].elts) == len(s0.value.elts)
+                and all(isinstance(t_, ast.Name) for t_ in s0.targets[0].elts)):
+            tn_ = {t_.id for t_ in s0.targets[0].elts}  # type: ignore[attr-defined]
+            plain_ = all(isinstance(v_, (ast.Name, ast.Constant)) or (isinstance(v_, ast.Attribute) and isinstance(v_.value, ast.Name)) for v_ in s0.value.elts)
+            if plain_ and not any(isinstance(x, ast.Name) and x.id in tn_ for v_ in s0.value.elts for x in ast.walk(v_)):
+                body[k:k + 1] = [ast.copy_location(ast.Assign(targets=[t_], value=v_), s0) for t_, v_ in zip(s0.targets[0].elts, s0.value.elts)]
+                st.changed = True
+                continue
+        k += 1
+    # N18: a loop over a short literal table of constants with a straight-line body is the
+    #      statements it spells out: `for a, b in (("<", "x"), (">", "y")): v = v.replace(a, b)`
+    k = 0
+    while k < len(body):
+        f = body[k]
+        if (isinstance(f, ast.For) and not f.orelse and isinstance(f.iter, (ast.Tuple, ast.List)) and 0 < len(f.iter.elts) <= 8
+                and not any(isinstance(x, (ast.Break, ast.Continue, ast.For, ast.While, ast.AsyncFor, ast.Yield, ast.YieldFrom, ast.FunctionDef, ast.Lambda)) for s_ in f.body for x in ast.walk(s_))):
+            tnames = [f.target.id] if isinstance(f.target, ast.Name) else ([e.id for e in f.target.elts] if isinstance(f.target, ast.Tuple) and all(isinstance(e, ast.Name) for e in f.target.elts) else None)
+            rows = []
+            for e in f.iter.elts:
+                if isinstance(e, ast.Constant) and tnames is not None and len(tnames) == 1 and isinstance(f.target, ast.Name):
+                    rows.append([e])
+                elif isinstance(e, ast.Tuple) and tnames is not None and isinstance(f.target, ast.Tuple) and len(e.elts) == len(tnames) and all(isinstance(c_, ast.Constant) for c_ in e.elts):
+                    rows.append(list(e.elts))
+                else:
+                    rows = None
+                    break
+            later = {x.id for s_ in body[k + 1:] for x in ast.walk(s_) if isinstance(x, ast.Name)}
+            stored = {x.id for s_ in f.body for x in ast.walk(s_) if isinstance(x, ast.Name) and isinstance(x.ctx, ast.Store)}
+            if rows and tnames and not (set(tnames) & later) and not (set(tnames) & stored):
+                unrolled: list[ast.stmt] = []
+                for row in rows:
+                    sub = dict(zip(tnames, row))
+
+                    class _U(ast.NodeTransformer):
+                        def visit_Name(self, n: ast.Name) -> ast.AST:
+                            return clone(sub[n.id]) if n.id in sub and isinstance(n.ctx, ast.Load) else n
+
+                    unrolled += [ast.fix_missing_locations(_U().visit(clone(s_))) for s_ in f.body]
+                body[k:k + 1] = unrolled
+                st.changed = True
+                continue
+        k += 1
+    # N19: `v = A` ; `v = v.m(...)`  ->  `v = A.m(...)` (v is the receiver at the head of the
+    #      second value, so it is evaluated first there as well, and read nowhere else in it)
+    k = 0
+    while k + 1 < len(body):
+        a, b = body[k], body[k + 1]
+        if (isinstance(a, ast.Assign) and isinstance(b, ast.Assign) and len(a.targets) == 1 and len(b.targets) == 1 and isinstance(a.targets[0], ast.Name)
+                and isinstance(b.targets[0], ast.Name) and a.targets[0].id == b.targets[0].id):
+            v = a.targets[0].id
+            uses = [x for x in ast.walk(b.value) if isinstance(x, ast.Name) and x.id == v]
+            head: ast.AST = b.value
+            while isinstance(head, (ast.Call, ast.Attribute, ast.Subscript)):
+                head = head.func if isinstance(head, ast.Call) else head.value
+            if len(uses) == 1 and head is uses[0] and not isinstance(b.value, ast.Name):
+                par = getattr(head, "_parent", None)
+
+                class _H(ast.NodeTransformer):
+                    def visit_Name(self, n: ast.Name) -> ast.AST:
+                        return a.value if n is head else n
+
+                b.value = _H().visit(b.value)
+                del body[k]
+                st.changed = True
+                continue
+        k += 1
+    # N15: `if c: ...; v = X` ; `return v`  ->  `if c: ...; return X else: return v`
+    #      (the return is duplicated into both paths; the store that is immediately returned
+    #      is dead afterwards).  N16: `v = X` ; `return v`  ->  `return X`
+    k = 0
+    while k + 1 < len(body):
+        c, r = body[k], body[k + 1]
+        if (isinstance(c, ast.If) and not c.orelse and c.body and isinstance(r, ast.Return) and isinstance(r.value, ast.Name) and isinstance(c.body[-1], ast.Assign)
+                and len(c.body[-1].targets) == 1 and isinstance(c.body[-1].targets[0], ast.Name) and c.body[-1].targets[0].id == r.value.id and k + 2 == len(body)):
+            last_ = c.body.pop()
+            c.body.append(ast.copy_location(ast.Return(value=last_.value), last_))  # (N16 at once: N7 would hoist an equal tail back out)
+            c.orelse = [r]
+            del body[k + 1]
+            st.changed = True
+            continue
+        k += 1
+    k = 0
+    while k + 1 < len(body):
+        a, r = body[k], body[k + 1]
+        if (isinstance(a, ast.Assign) and len(a.targets) == 1 and isinstance(a.targets[0], ast.Name) and isinstance(r, ast.Return) and isinstance(r.value, ast.Name)
+                and r.value.id == a.targets[0].id):
+            body[k:k + 2] = [ast.copy_location(ast.Return(value=a.value), a)]
+            st.changed = True
+            continue
         k += 1
     # N14: `if c: v = A else: v = B` ; `return f(v)`  ->  `if c: return f(A) else: return f(B)`
     #      for plain A / B (names, attributes, constants: reading them is pure) and v read once
